@@ -23,6 +23,14 @@ pg.Object / pg.Dict values), the tuple (pg.MISSING_VALUE,), falsy leaves
 == answers always-True, always-False or with a non-bool (numpy style).  All
 lookup entry points (query / get with any default / exists / sym_has / sym_get)
 must agree on every node and on every absent key.
+
+Lookup options: `use_inferred` (which form of an inferential node -- pg.Ref,
+ValueFromParentChain -- a path goes through and ends at) is crossed with the
+entry points and with the ways of giving a default: on values without
+inferential nodes (one form only, drv_query) and on values that hold them as
+dict values / list slots / object fields (drv_lookup_options, with a model of
+the symbolic and of the inferred form); traversal of such values reports the
+nodes of the symbolic form, the one a plain lookup addresses.
 """
 import itertools
 import re
@@ -787,6 +795,7 @@ def drv_query(tier, seed):
     root = eval(expr, dict(ns))  # pylint: disable=eval-used
     model = _model_eval(expr)
     sym_root = isinstance(root, pg.Symbolic)
+    inferred_too = full and flavour not in special     # (the form looked up does not depend on the values of leaves.)
     for path, mnode, _ in _mwalk(model):
       node = _lookup(root, path)
       lp = list(path)
@@ -810,6 +819,16 @@ def drv_query(tier, seed):
           g = _out(p.get, root, dv) if dn != 'none' else _out(p.get, root)
           chk(f'get.node/default={dn}', (expr, path), g[0] == 'ok' and g[1] is node, lambda: f'get(root, {dsrc}) -> {g}, want the node {node!r}',
               lambda: _pre(expr + dsrc) + f'root = {expr}\np = pg.KeyPath({lp!r})\nassert p.get(root, {dsrc}) is p.query(root)')
+      # `use_inferred` selects the form of inferential nodes: a value without such nodes has one form only,
+      # whichever entry point is used and whether or not a default is given.
+      if okg and inferred_too:
+        gi = [_out(p.query, root, True), _out(p.get, root, _SENTINEL, True), _out(lambda: p.get(root, use_inferred=True)), _out(lambda: p.get(root, default_value=pg.MISSING_VALUE, use_inferred=True))]
+        if sym_root:
+          gi += [_out(lambda: root.sym_get(p, use_inferred=True)), _out(lambda: root.sym_get(p, _SENTINEL, use_inferred=True)), _out(lambda: root.sym_get(str(p), None, True))]
+        chk('lookup.use_inferred=True/value-without-inferential-nodes/node', (expr, path), all(g[0] == 'ok' and g[1] is node for g in gi),
+            lambda: f'query(root, True), get(root, dflt, True), get(root, use_inferred=True), get(root, MISSING_VALUE, True)[, sym_get(p, use_inferred=True), sym_get(p, dflt, use_inferred=True), sym_get(str, None, True)] -> {gi}; want the node {node!r}',
+            lambda: w0 + 'assert p.query(root, True) is p.query(root) and p.get(root, "dflt", True) is p.query(root) and p.get(root, use_inferred=True) is p.query(root)'
+            + ('\nassert root.sym_get(p, use_inferred=True) is p.query(root) and root.sym_get(p, "dflt", use_inferred=True) is p.query(root)' if sym_root else ''))
       # the symbolic root offers the same lookups as methods (checked where the KeyPath methods
       # are right: a defect of those is reported once).
       if sym_root and oke and okg:
@@ -849,6 +868,12 @@ def drv_query(tier, seed):
             g1 == ('ok', False) and g2[0] == 'ok' and g2[1] is _SENTINEL and g3 == ('exc', 'KeyError'),
             lambda: f'exists -> {g1}; get(default) -> {g2 if g2[0] == "exc" else ("default" if g2[1] is _SENTINEL else g2[1])}; query -> {g3 if g3[0] == "exc" else ("ok", g3[1])} (want False / default / KeyError)',
             lambda: w + 'assert p.exists(root) is False\nassert p.get(root, "dflt") == "dflt"\ntry:\n  p.query(root)\n  raise AssertionError("no KeyError")\nexcept KeyError:\n  pass')
+        if inferred_too and k == 'zz':
+          gi = [_out(q.query, root, True), _out(q.get, root, _SENTINEL, True), _out(lambda: q.get(root, use_inferred=True))] + ([_out(lambda: root.sym_get(q, _SENTINEL, use_inferred=True)), _out(lambda: root.sym_get(q, use_inferred=True))] if sym_root else [])
+          chk('lookup.use_inferred=True/value-without-inferential-nodes/absent', (expr, path, k),
+              gi[0] == ('exc', 'KeyError') and gi[1][0] == 'ok' and gi[1][1] is _SENTINEL and gi[2] == ('ok', None) and (not sym_root or (gi[3][0] == 'ok' and gi[3][1] is _SENTINEL and gi[4] == ('exc', 'KeyError'))),
+              lambda: f'query(root, True), get(root, dflt, True), get(root, use_inferred=True)[, sym_get(p, dflt, use_inferred=True), sym_get(p, use_inferred=True)] -> {gi[:1] + ["default" if g[0] == "ok" and g[1] is _SENTINEL else g for g in gi[1:]]}; want KeyError, default, None[, default, KeyError]',
+              lambda: w + 'assert p.get(root, "dflt", True) == "dflt" and p.get(root, use_inferred=True) is None\ntry:\n  p.query(root, True)\n  raise AssertionError("no KeyError")\nexcept KeyError:\n  pass')
         if k in ('zz', 7):
           # an absent address yields the very default, whatever the default is.
           for dn, dv, dsrc in (dflts if full and k == 'zz' else ()):
@@ -884,6 +909,281 @@ def drv_query(tier, seed):
       want_ = want_[k_]
     chk('query.node/plain-dict-int-key', (expr, path), g == ('ok', want_) and _out(p.exists, root) == ('ok', True), lambda: f'query -> {g}',
         f'import pyglove as pg; assert pg.KeyPath({list(path)!r}).query({expr}) == "x"')
+  return rec.result()
+
+
+# ---------------------------------------------------------------------------
+# Driver 3b: the options of a lookup (use_inferred x default x entry point) on
+# values that hold inferential nodes (pg.Ref, ValueFromParentChain).
+#
+# A lookup is made through KeyPath.query(src, use_inferred), KeyPath.get(src,
+# default, use_inferred), Symbolic.sym_get(path[, default][, use_inferred]),
+# KeyPath.exists / Symbolic.sym_has.  `use_inferred` selects what a node that
+# holds an inferential value stands for: itself (its symbolic form, the
+# default) or the value it infers to, on the way and at the end of the path.
+# Whether a default is supplied selects nothing but the answer for an absent
+# path: for one and the same path and one and the same `use_inferred`, all
+# entry points return the same node.
+#
+# Model: `pg.Ref(t)` is, in inferred form, the target t itself (by
+# construction) and a leaf in symbolic form; `VPC()` stored under key k is, in
+# inferred form, the value under k of the nearest proper ancestor of its
+# container that has k, and a leaf in symbolic form.
+# ---------------------------------------------------------------------------
+
+class _MRef:
+  def __init__(self, target):
+    self.target = target
+
+
+class _MVpc:
+  pass
+
+
+class _ModelPgI(_ModelPg):
+  Ref = _MRef
+
+
+IPRE = 'VPC = pg.symbolic.ValueFromParentChain\n'
+
+REF_TARGETS = ["A(1, [2, {'k': 3}])", "pg.Dict({'k': [1, 2], 'y': 'va'})", "pg.List([1, {'k': 2}])", "A({'x.y': 0})", "[1, {'k': 2}]"]
+# ({R}: the first reference `pg.Ref(t := <target>)`, {r}: a further reference to the same target.)
+REF_CTX = [("pg.Dict({{'r': {R}}})", 'dict-value'), ("pg.Dict({{'a': {{'x.y': {R}}}, 'b': 1}})", 'dict-value'), ("pg.Dict({{'r': {R}, 's': {r}}})", 'dict-value'),
+           ('pg.List([{R}])', 'list-slot'), ('pg.List([0, [{R}]])', 'list-slot'), ("pg.Dict({{'items': [{R}, {r}]}})", 'list-slot'),
+           ('A({R})', 'object-field'), ('A(1, {R})', 'object-field'), ('A(A({R}))', 'object-field'),
+           ("A([{R}], {{'k': {r}}})", 'mixed'), ("pg.Dict({{'r': {R}, 'l': [{r}]}})", 'mixed'),
+           # a reference to an object that itself holds a reference.
+           ("pg.Dict({{'r': pg.Ref(A({R}, 2))}})", 'dict-value'), ("pg.List([pg.Ref(A(1, [{R}]))])", 'list-slot')]
+# (a reference to a node of the same tree is refused by pg.Ref on construction: not generated.)
+# (below plain containers nothing is inferred -- `use_inferred` is about symbolic values: agreement of the entry points only.)
+REF_PLAIN_CTX = ["{{'r': {R}}}", '[0, {R}]', "{{'a': [{R}], 'b': {r}}}"]
+
+VPC_VALUES = ['5', '0', "'va'", "{'k': [1, 2]}", 'A(1)']
+VPC_CTX = [("pg.Dict({{'y': {V}, 'x': {{'y': VPC()}}}})", 'dict-value'), ("pg.Dict({{'y': {V}, 'x': [{{'y': VPC()}}]}})", 'dict-value'),
+           ("pg.Dict({{'y': {V}, 'm': {{'n': {{'y': VPC()}}}}}})", 'dict-value'), ("pg.Dict({{'y': 1, 'm': {{'y': {V}, 'n': {{'y': VPC()}}}}}})", 'dict-value'),
+           ("pg.Dict({{'k': 0, 'x': {{'y': VPC(), 'k': VPC()}}, 'y': {V}}})", 'dict-value'),
+           ("A({{'y': VPC()}}, {V})", 'dict-value'), ("A([A(1, VPC())], {V})", 'object-field'), ("pg.Dict({{'y': {V}, 'o': A(2, VPC())}})", 'object-field'),
+           ('pg.List([{V}, [VPC()]])', 'list-slot'), ("A([0, [VPC()]], {V})", 'list-slot')]
+
+
+def _inferential_exprs():
+  """(expr, kind of inferential, where it is held, model applies)."""
+  out = []
+  for t in REF_TARGETS:
+    first = f'pg.Ref(t := {t})'
+    for ctx, where in REF_CTX:
+      out.append((ctx.format(R=first, r='pg.Ref(t)'), 'ref', where, True))
+    for ctx in REF_PLAIN_CTX:
+      out.append((ctx.format(R=first, r='pg.Ref(t)'), 'ref', 'plain-container', False))
+  for v in VPC_VALUES:
+    for ctx, where in VPC_CTX:
+      out.append((ctx.format(V=v), 'parent-chain', where, True))
+  # both kinds in one value.
+  out.append(("pg.Dict({'y': pg.Ref(t := A(1, [2])), 'x': {'y': VPC()}})", 'parent-chain', 'dict-value', True))
+  out.append(("pg.Dict({'y': 5, 'x': {'y': VPC(), 'r': pg.Ref(t := A(1, [2]))}})", 'ref', 'dict-value', True))
+  return out
+
+
+def _model_eval_i(expr):
+  ns = {'pg': _ModelPgI, 'A': _MObj, 'VPC': _MVpc}
+  return eval(expr, ns), ns  # pylint: disable=eval-used
+
+
+def _below(how):
+  return how if how == 'ordinary' or how.startswith('below-') else 'below-' + how
+
+
+def _mresolve(c, k, chain):
+  """Inferred form of child model c stored under key k; chain: the proper ancestors of its container (nearest last)."""
+  if isinstance(c, _MRef):
+    return _mresolve(c.target, None, ())[0], 'ref'
+  if isinstance(c, _MVpc):
+    for a in reversed(chain):
+      ch = _mchildren(a)
+      if isinstance(a, list):
+        if isinstance(k, int) and -len(a) <= k < len(a):
+          return _mresolve(a[k], None, ())[0], 'parent-chain'
+      elif isinstance(k, str):
+        for ck, cv in ch:
+          if ck == k:
+            return _mresolve(cv, None, ())[0], 'parent-chain'
+    raise ValueError('generator error: unresolvable VPC')
+  return c, None
+
+
+def _miwalk(v, path=(), chain=(), how='ordinary'):
+  """Preorder (path, node model, how the path gets there) of the inferred form."""
+  yield path, v, how
+  ch = _mchildren(v)
+  if ch:
+    for k, c in ch:
+      rc, h = _mresolve(c, k, chain)
+      # (inside a referenced / inferred value the chain is that value's own: the generator
+      # puts no parent-chain values there.)
+      yield from _miwalk(rc, path + (k,), () if h else chain + (v,), h or _below(how))
+
+
+def _lookup_inferred(root, path):
+  """Reference lookup of the inferred form by plain stepwise access (no KeyPath)."""
+  v = root
+  for k in path:
+    if isinstance(v, pg.Symbolic):
+      v = v.sym_getattr(k)
+      if isinstance(v, pg.symbolic.Inferential):
+        v = v.infer()
+    else:
+      v = v[k]
+  return v
+
+
+def _same_node_i(real, model):
+  if isinstance(model, _MRef):
+    return isinstance(real, pg.Ref)
+  if isinstance(model, _MVpc):
+    return isinstance(real, pg.symbolic.ValueFromParentChain)
+  return _same_node(real, model) and not isinstance(real, pg.symbolic.Inferential)
+
+
+def _held_in(model, path):
+  """Kind of the container that holds the first inferential node met along path (symbolic form), or None."""
+  v = model
+  for k in path:
+    ch = _mchildren(v)
+    c = dict((( type(ck).__name__, ck), cv) for ck, cv in ch or ()).get((type(k).__name__, k), _SENTINEL)
+    if c is _SENTINEL:
+      return 'unknown'
+    if isinstance(c, (_MRef, _MVpc)):
+      return 'list-slot' if isinstance(v, list) else 'dict-value' if isinstance(v, dict) else 'object-field'
+    v = c
+  return None
+
+
+def drv_lookup_options(tier, seed):
+  vals = _inferential_exprs()
+  rec = Recorder('C10', 'lookup options: KeyPath.query/get, Symbolic.sym_get with use_inferred x default, on values that hold inferential nodes; traversal of such values',
+                 scope=f'{len(vals)} values holding pg.Ref / ValueFromParentChain nodes as dict values, list slots, object fields (targets: objects, pg.Dict, pg.List, plain lists; '
+                       'several references to one target, references through references); every node path of the symbolic and of the inferred form, '
+                       'absent keys below every node; use_inferred in {default, False, True} x default in {none, omitted, sentinel, None, MISSING_VALUE} x positional / keyword forms; '
+                       'pg.traverse / pg.query report the nodes of the symbolic form')
+  del tier, seed
+  chk = _Chk(rec)
+  ns0 = _real_ns()
+  exec(IPRE, ns0)  # pylint: disable=exec-used
+  S = _SENTINEL
+  ENTER = pg.TraverseAction.ENTER
+
+  def agree(tag, key, p, root, u, w, light=False):
+    """get(default) is query, but for an absent path the default: whatever the path and the form looked up."""
+    q = _out(p.query, root, u)
+    okg = True
+    for dn, g in (('sentinel', _out(p.get, root, S, u)), ('keyword', _out(lambda: p.get(root, default_value=S, use_inferred=u))),
+                  ('missing-value', _out(p.get, root, pg.MISSING_VALUE, u)), ('omitted', _out(lambda: p.get(root, use_inferred=u))))[:1 if light else 4]:
+      dv = {'missing-value': pg.MISSING_VALUE, 'omitted': None}.get(dn, S)
+      if q[0] == 'ok':
+        ok = g[0] == 'ok' and g[1] is q[1]
+      elif q == ('exc', 'KeyError'):
+        ok = g[0] == 'ok' and g[1] is dv
+      else:
+        continue      # (a lookup that fails for another reason: nothing stated about the default.)
+      okg = chk(f'get-agrees-with-query.use_inferred={u}/{tag}', key + (dn,), ok,
+          lambda: f'query(root, {u}) -> {q}; get(root, <{dn} default>, {u}) -> {g if g[0] == "exc" else ("default" if g[1] is dv and q[0] != "ok" else repr(g[1]))}',
+          lambda: w + 'try:\n  want = p.query(root, %s)\nexcept KeyError:\n  want = "dflt"\nassert p.get(root, "dflt", %s) is want' % (u, u)) and okg
+    # (sym_get with a default is KeyPath.get: a defect of that is reported once.)
+    if isinstance(root, pg.Symbolic):
+      for fn, form in ((lambda: root.sym_get(p, S, use_inferred=u), 'sym_get(path, default, use_inferred=)'), (lambda: root.sym_get(str(p), S, u), 'sym_get(str, default, positional)'))[:0 if not okg else 1 if light else 2]:
+        g = _out(fn)
+        ok = (g[0] == 'ok' and g[1] is q[1]) if q[0] == 'ok' else (g[0] == 'ok' and g[1] is S) if q == ('exc', 'KeyError') else True
+        chk(f'sym_get-default-agrees-with-query.use_inferred={u}/{tag}', key + (form,), ok, lambda: f'query(root, {u}) -> {q}; {form} -> {g if g[0] == "exc" else ("default" if g[1] is S else repr(g[1]))}',
+            lambda: w + 'try:\n  want = p.query(root, %s)\nexcept KeyError:\n  want = "dflt"\nassert root.sym_get(p, "dflt", use_inferred=%s) is want' % (u, u))
+      g = _out(lambda: root.sym_get(p, use_inferred=u)) if not light else q
+      chk(f'sym_get-agrees-with-query.use_inferred={u}/{tag}', key, (g[0] == 'ok' and g[1] is q[1]) if q[0] == 'ok' else g == q, lambda: f'query(root, {u}) -> {q}; sym_get(path, use_inferred={u}) -> {g}',
+          lambda: w + 'try:\n  want = p.query(root, %s)\nexcept KeyError:\n  want = KeyError\ntry:\n  got = root.sym_get(p, use_inferred=%s)\nexcept KeyError:\n  got = KeyError\nassert got is want' % (u, u))
+
+  def one(expr, kind, where, modelled):
+    ns = dict(ns0)
+    root = eval(expr, ns)  # pylint: disable=eval-used
+    model, mns = _model_eval_i(expr)
+    sym_root = isinstance(root, pg.Symbolic)
+    w0 = _pre(expr) + IPRE + f'root = {expr}\n'
+    wp = lambda lp: w0 + f'p = pg.KeyPath({lp!r})\n'
+    sym_nodes = list(_mwalk(model))
+    sym_paths = set(_tk(p) for p, _, _ in sym_nodes)
+    # ---- symbolic form (the default, and use_inferred=False spelled out): an inferential node is a node like any other.
+    for path, mnode, _ in sym_nodes:
+      lp = list(path)
+      p = KP(lp)
+      cls = kind if isinstance(mnode, (_MRef, _MVpc)) else 'ordinary'
+      want = _lookup(root, path)
+      g0, g1, g2 = _out(p.query, root), _out(p.query, root, False), _out(lambda: p.query(root, use_inferred=False))
+      chk(f'query.symbolic-form/{cls}-node', (expr, path), all(g[0] == 'ok' and g[1] is want for g in (g0, g1, g2)) and _same_node_i(want, mnode),
+          lambda: f'query(root) -> {g0}; query(root, False) -> {g1}; want the node itself: {want!r}', lambda: wp(lp) + 'v = root\nfor k in p.keys:\n  v = v.sym_getattr(k) if isinstance(v, pg.Symbolic) else v[k]\nassert p.query(root) is v and p.query(root, False) is v')
+      chk(f'exists.symbolic-form/{cls}-node', (expr, path), _out(p.exists, root) == ('ok', True) and (not sym_root or _out(root.sym_has, p) == ('ok', True)), 'exists / sym_has -> not True',
+          lambda: wp(lp) + 'assert p.exists(root) is True')
+      agree(f'{cls}-node', (expr, path), p, root, False, wp(lp))
+      if sym_root:
+        g = _out(root.sym_get, p, S)      # (use_inferred left out.)
+        chk(f'sym_get-default.symbolic-form/{cls}-node', (expr, path), g[0] == 'ok' and g[1] is want, lambda: f'sym_get(path, default) -> {g}', lambda: wp(lp) + 'assert root.sym_get(p, "dflt") is p.query(root)')
+      if not (isinstance(mnode, dict) and 'zz' in mnode):
+        agree('absent', (expr, path, 'zz'), KP(lp + ['zz']), root, False, wp(lp + ['zz']), light=True)
+    if not modelled:
+      # below plain containers: the entry points agree, whatever is (not) inferred there.
+      for path, _, _ in sym_nodes:
+        for tail in ((), ('k',), (0,), ('x',), (1, 'k'), ('zz',)):
+          lp = list(path + tail)
+          agree('below-plain-container', (expr, path + tail), KP(lp), root, True, wp(lp), light=True)
+      return
+    # ---- inferred form.
+    inf_nodes = list(_miwalk(model))
+    for path, mnode, how in inf_nodes:
+      lp = list(path)
+      p = KP(lp)
+      want = _lookup_inferred(root, path)
+      okw = _same_node_i(want, mnode) and not (how == 'ref' and 't' in mns and mnode is mns['t'] and want is not ns['t'])
+      g1, g2 = _out(p.query, root, True), _out(lambda: p.query(root, use_inferred=True))
+      okq = chk(f'query.inferred-form/{how}', (expr, path), okw and all(g[0] == 'ok' and g[1] is want for g in (g1, g2)),
+                lambda: f'query(root, True) -> {g1}; want {want!r}' + ('' if okw else ' (reference lookup disagrees with the model: harness)'),
+                lambda: wp(lp) + 'v = root\nfor k in p.keys:\n  v = v.sym_inferred(k) if isinstance(v, pg.Symbolic) else v[k]\nassert p.query(root, use_inferred=True) is v')
+      if not okq:
+        continue
+      agree(how, (expr, path), p, root, True, wp(lp))
+      # a path that exists in the inferred form only: the symbolic-form lookups agree with one another on it.
+      if _tk(path) not in sym_paths:
+        agree(f'{how}/path-of-the-inferred-form-only', (expr, path), p, root, False, wp(lp))
+      # absent keys below the node.
+      ch = _mchildren(mnode)
+      for k in ('zz', 7):
+        if ch is not None and (any(_tk([k]) == _tk([c]) for c, _ in ch) if not isinstance(mnode, list) else isinstance(k, int) and k < len(mnode)):
+          continue
+        if isinstance(k, int) and isinstance(mnode, (str, tuple)):
+          continue
+        q = KP(lp + [k])
+        g = _out(q.query, root, True)
+        chk('query.inferred-form/absent', (expr, path, k), g == ('exc', 'KeyError'), lambda: f'query(root, True) -> {g}, want KeyError',
+            lambda: wp(lp + [k]) + 'try:\n  p.query(root, True)\n  raise AssertionError("no KeyError")\nexcept KeyError:\n  pass')
+        if g == ('exc', 'KeyError'):
+          agree('absent', (expr, path, k), q, root, True, wp(lp + [k]), light=k != 'zz')
+    # ---- traversal: the nodes of a value are those of its symbolic form (what the default lookup addresses),
+    # whatever kind of container holds an inferential node.
+    pre = []
+    g = _out(pg.traverse, root, lambda k, v, p: (pre.append((k, v)), ENTER)[1])
+    wantp = [_tk(p) for p, _, _ in sym_nodes]
+    held = set(_held_in(model, p) for p, _, _ in sym_nodes) - {None}
+    tw = 'list-slot' if 'list-slot' in held else where       # (one class per kind of holder: a list slot decides.)
+    okn = all(q[0] == 'ok' and q[1] is v for q, v in ((_out(k.query, root), v) for k, v in pre))
+    if not chk(f'pg.traverse.visits-the-nodes-of-the-symbolic-form/inferential-in-{tw}', expr, g == ('ok', True) and [_tk(k.keys) for k, _ in pre] == wantp and okn,
+               lambda: f'visited {[(str(k), type(v).__name__) for k, v in pre]}, want the paths {[str(KP(list(p))) for p, _, _ in sym_nodes]}, each with the value that KeyPath.query(root) returns for it',
+               lambda: w0 + 'log = []\npg.traverse(root, lambda k, v, p: (log.append(k.keys), None if k.query(root) is v else 1 / 0, pg.TraverseAction.ENTER)[-1])\n' + f'assert log == {[list(p) for p, _, _ in sym_nodes]!r}'):
+      return      # (pg.query is built on pg.traverse: it would report the same defect again.)
+    g = _out(pg.query, root, None, lambda v: True, True)
+    okq = g[0] == 'ok' and list(g[1].keys()) == [str(KP(list(p))) for p, _, _ in sym_nodes] and all(_out(KP.parse(s).query, root)[1] is v for s, v in g[1].items())
+    chk(f'pg.query.select-all/inferential-in-{tw}', expr, okq, lambda: f'{list(g[1]) if g[0] == "ok" else g}, want {[str(KP(list(p))) for p, _, _ in sym_nodes]}',
+        lambda: w0 + f'res = pg.query(root, where=lambda v: True, enter_selected=True)\nassert list(res) == {[str(KP(list(p))) for p, _, _ in sym_nodes]!r}\nassert all(pg.KeyPath.parse(k).query(root) is v for k, v in res.items())')
+
+  for expr, kind, where, modelled in vals:
+    try:
+      one(expr, kind, where, modelled)
+    except Exception as e:  # pylint: disable=broad-except
+      rec.case(f'unexpected-exception/inferential-{kind}', expr, False, f'{type(e).__name__}: {e}', _pre(expr) + IPRE + f'root = {expr}\nraise AssertionError({str(e)!r})')
   return rec.result()
 
 
@@ -1761,7 +2061,7 @@ def _safe(drv):
   return run
 
 
-DRIVERS = [_safe(d) for d in (drv_roundtrip, drv_arith, drv_query, drv_traverse, drv_flatten, drv_keypathset)]
+DRIVERS = [_safe(d) for d in (drv_roundtrip, drv_arith, drv_query, drv_lookup_options, drv_traverse, drv_flatten, drv_keypathset)]
 
 
 def replay(rec):
